@@ -29,6 +29,11 @@ CHECKS['C08'] = ('model_checking', '§5 C08',
     'Closed-form counts are derived by hand from the book for each template; programs outside the corpus are not covered.',
     'fault-point sweep over every limit value + explicit-state enumeration of host-call histories vs counter model')
 
+CHECKS['C09'] = ('fault_enumeration', '§5 C09',
+    'For every program of a corpus of value builders (big ints, strings, every copying sequence update, stacks, sets, mappings, closures, compounds, generators, failing programs) the allocation trace of an unlimited run gives every cumulative total; the program is re-run with the size limit just below and at every distinct total, around the peak and below the library baseline (thorough: every 8 bytes from baseline to peak). Checked on every run: violation kind, monotonicity in L, peak <= L on passing runs, result independent of L, accounted level back to the pre-run level after dropping results and after a violation, exactly zero after everything is dropped, payload lower bound, no underflow.',
+    'Allocation totals come from a read-only trace hook in Runtime::allocate; pre-flight checks may refuse earlier than the exact peak (allowed); corpus is finite.',
+    'fault-point enumeration: size limit placed at every allocation threshold of each run')
+
 NA = {
 }
 
